@@ -475,3 +475,5 @@ def run(repo, chk):
     build_precedence_obligations(repo, chk, "R12.3", "a condition written on the outer call (outer(x=1) > inner > x) is checked against the outer variable")
     from .shared import call_aggregate_obligations
     call_aggregate_obligations(repo, chk, "R12.3", ["hasval", "all_values"], "conditions written on nested calls are checked like those on the outermost call")
+    from .shared import intercept_combination_obligations
+    intercept_combination_obligations(repo, chk, "R12.2")
